@@ -862,6 +862,10 @@ func runHist(t *testing.T, seed int64, n int, out *Out) {
 			Inflation: rand.New(rand.NewSource(hseed^0x1f1a)).Intn(3) == 0 || os.Getenv("VERIF_INFLATION") != "",
 			Whale:     rand.New(rand.NewSource(hseed^0x3a1e)).Intn(5) == 0 || os.Getenv("VERIF_WHALE") != "",
 			Sweep:     []string{"default", "default", "one-per-block", "every-7-blocks", "off"}[rand.New(rand.NewSource(hseed^0x5bee)).Intn(5)]}
+		if dr := rand.New(rand.NewSource(hseed ^ 0xd0d0)); dr.Intn(6) == 0 || os.Getenv("VERIF_DUMP") != "" {
+			wv.Dump = 1 + dr.Intn(4)
+			wv.DumpDenom = [][]string{{"uatom", "uusdc"}, {"uelys", "uusdc"}, {"uatom", "uusdc"}, {"uatom", "uusdc"}}[wv.Dump-1][dr.Intn(2)]
+		}
 		if v := os.Getenv("VERIF_ATOM_PRICE"); v != "" {
 			wv.AtomPrice = v
 		}
@@ -931,6 +935,21 @@ func runHist(t *testing.T, seed int64, n int, out *Out) {
 				// naming every open position in every list: several positions of one pool close inside one message
 				txs = append(txs, h.batchClose()...)
 			}
+			if wv.Dump > 0 && b%8 == 4 {
+				p := std.Pools[wv.Dump-1]
+				if pool, ok := w.App.AmmKeeper.GetPool(w.Ctx(), p.Id); ok {
+					for _, pa := range pool.PoolAssets {
+						if pa.Token.Denom == wv.DumpDenom {
+							u := w.Accts[4]
+							a := pa.Token.Amount.MulRaw(3)
+							txs = append(txs, &histTx{kind: "amm.swapIn", f: J{"pool": p.Id, "in": []string{wv.DumpDenom, a.String()}, "hops": 1, "recipient": u.Addr.String(), "dump": true},
+								req: TxReq{Signer: u, Msgs: []sdk.Msg{&ammtypes.MsgSwapExactAmountIn{Sender: u.Addr.String(), Routes: []ammtypes.SwapAmountInRoute{{PoolId: p.Id, TokenOutDenom: other(p, wv.DumpDenom)}},
+									TokenIn: sdk.NewCoin(wv.DumpDenom, a), TokenOutMinAmount: math.OneInt(), Recipient: u.Addr.String()}}}})
+							stats["dump"]++
+						}
+					}
+				}
+			}
 			if govShocks && h.r.Intn(6) == 0 {
 				if sh := h.govShock(); sh != "" {
 					curShocks = append(curShocks, sh)
@@ -971,6 +990,10 @@ type histWorldVariant struct {
 	Inflation bool   `json:"inflation"`
 	Whale     bool   `json:"whale"`
 	Sweep     string `json:"sweep"`
+	// Dump > 0: one user keeps selling three reserves of one asset into pool number Dump-1 every eighth block (generation
+	// only: the sales are ordinary recorded txs) — a pool driven to an extreme ratio
+	Dump      int    `json:"dump"`
+	DumpDenom string `json:"dumpDenom"`
 }
 
 func histWorld(t *testing.T, hseed int64, wv histWorldVariant) (*World, *Std) {
@@ -982,6 +1005,12 @@ func histWorld(t *testing.T, hseed int64, wv histWorldVariant) (*World, *Std) {
 			w.App.TokenomicsKeeper.SetTimeBasedInflation(ctx, toktypes.TimeBasedInflation{StartBlockHeight: 1, EndBlockHeight: 1_000_000_000, Description: "verif",
 				Authority: w.Gov, Inflation: &toktypes.InflationEntry{LmRewards: bpy * 1_000_000, IcsStakingRewards: bpy * 1_000_000, CommunityFund: bpy * 1000, StrategicReserve: 0, TeamTokensVested: 0}})
 			enableEdenRewards(w, ctx)
+		})
+	}
+	if wv.Dump > 0 {
+		// the seller of the dump variant holds enough of the asset to keep selling three reserves at a time
+		w.Seed(func(ctx sdk.Context) {
+			w.Fund(ctx, w.Accts[4].Addr, sdk.NewCoins(sdk.NewCoin(wv.DumpDenom, math.NewIntWithDecimal(1, 30))))
 		})
 	}
 	// seed some claimed Eden / EdenB so commitment ops have something to work with
